@@ -206,18 +206,24 @@ type resolver struct {
 	// refs resolved.) The cache ensures that the loader will never be called more
 	// than once with the same URI, and that reference cycles are handled properly.
 	loaded map[string]*Resolved
+	// The draft of the root document, under which loaded documents that declare
+	// no $schema are read.
+	rootDraft draft
 }
 
 // resolve resolves s, which was loaded from baseURI.
 // If s was loaded because referrer refers to it and s does not declare a $schema,
-// it is read under the referrer's draft.
+// it is read under the root document's draft (whichever document refers to it first),
+// the draft under which it will also be validated.
 func (r *resolver) resolve(s *Schema, baseURI *url.URL, referrer *Resolved) (*Resolved, error) {
 	if baseURI.Fragment != "" {
 		return nil, fmt.Errorf("base URI %s must not have a fragment", baseURI)
 	}
 	rs := newResolved(s)
-	if s.Schema == "" && referrer != nil {
-		rs.draft = referrer.draft
+	if referrer == nil {
+		r.rootDraft = rs.draft
+	} else if s.Schema == "" {
+		rs.draft = r.rootDraft
 	}
 
 	if err := s.check(rs.resolvedInfos); err != nil {
